@@ -221,3 +221,74 @@ func TestC13HoldsOnTheImplementation(t *testing.T) {
 		}
 	}
 }
+
+// render-twice: the real implementation is accepted; a later render of the same tree that
+// repeats an item (what an in-place compaction of the item slice produces) is rejected, and
+// so is a difference between the injected tree and its twin in a later render only.
+func TestC13RenderTwice(t *testing.T) {
+	r := rand.New(rand.NewSource(13))
+	cons := c13Constructs()
+	nt, rejected := 0, 0
+	for i := 0; i < 400; i++ {
+		c := c13TwiceCase(r, cons, i)
+		got := ExecFresh(c.Hist)
+		if m := (c13{}).Oracle(c, got); m != "" {
+			t.Fatalf("oracle rejects the real implementation: %s\n%s", m, c.Hist.Sexp())
+		}
+		if c.NonTrivial {
+			nt++
+		}
+		ways := c.Meta["ways"].([]string)
+		k := len(ways)
+		// corrupt the LAST render of the injected tree only (the first one stays correct)
+		bad := append([]hist.Obs{}, got...)
+		if bad[k-1].Kind != "write" && bad[k-1].Kind != "fmterr" {
+			continue
+		}
+		bad[k-1].Out += "i9"
+		if m := (c13{}).Oracle(c, bad); m == "" {
+			t.Fatalf("a later render that differs was accepted\n%s", c.Hist.Sexp())
+		}
+		// both the injected tree and its twin drift in the same way in a repeated render:
+		// only the comparison with the first render of the same kind sees it
+		if k >= 2 && ways[k-1] == ways[0] {
+			bad2 := append([]hist.Obs{}, got...)
+			bad2[k-1].Out += "i9"
+			bad2[2*k-1].Out += "i9"
+			if m := (c13{}).Oracle(c, bad2); !strings.Contains(m, "differs from render") {
+				t.Fatalf("a drift common to both trees was accepted: %q", m)
+			}
+			rejected++
+		}
+	}
+	if nt < 350 || rejected < 100 {
+		t.Fatalf("non-trivial %d of 400, drift checks %d", nt, rejected)
+	}
+}
+
+func TestC13LeadingEmptyRawBytes(t *testing.T) {
+	cons := c13Constructs()
+	l := &c13List{Cons: consByName(cons, "Index"), N: 3, Empty: []bool{true, false, false},
+		Inj: [][]c13Inj{{{Kind: "nil"}, {Kind: "null"}}, nil, nil, nil}}
+	c := l.listCase("file", "empty")
+	c.Meta["wantraw"] = "[:i1:i2]"
+	got := ExecFresh(c.Hist)
+	if m := (c13{}).Oracle(c, got); m != "" {
+		t.Fatalf("rejected: %s", m)
+	}
+	found := false
+	for _, tg := range c.Tags {
+		found = found || tg == "leading-Empty-after-nulls"
+	}
+	if !found {
+		t.Fatalf("tags %v", c.Tags)
+	}
+	// the leading Empty() lost its separator in both renders: rejected on the raw bytes
+	bad := append([]hist.Obs{}, got...)
+	for i := range bad {
+		bad[i].Out = strings.Replace(bad[i].Out, "[:i1", "[i1", 1)
+	}
+	if m := (c13{}).Oracle(c, bad); m == "" {
+		t.Fatalf("`[i1:i2]` accepted for Index(nil, Null(), Empty(), i1, i2)")
+	}
+}
